@@ -5,6 +5,7 @@ import (
 	"encoding/json"
 	"os"
 	"sort"
+	"strings"
 )
 
 // Finding is one disagreement: kind "instance" = the property itself fails on the
@@ -36,6 +37,7 @@ type Report struct {
 	Notes        []string       `json:"notes,omitempty"`
 	seen         map[[32]byte]bool
 	maxFindings  int
+	best         map[string]int
 	FindingCount int `json:"finding_count"`
 }
 
@@ -67,9 +69,25 @@ func (r *Report) Sample(s string) {
 	}
 }
 
+// Add keeps, per (kind, what, entry point), the shortest case seen: the replay is a minimal one.
 func (r *Report) Add(f Finding) {
 	r.FindingCount++
-	if len(r.Findings) < r.maxFindings {
+	op := f.Case
+	if i := strings.IndexByte(op, ' '); i > 0 {
+		op = op[:i]
+	}
+	key := f.Kind + "|" + f.What + "|" + op + "|" + f.Known
+	if r.best == nil {
+		r.best = map[string]int{}
+	}
+	if i, ok := r.best[key]; ok {
+		if len(f.Case) < len(r.Findings[i].Case) {
+			r.Findings[i] = f
+		}
+		return
+	}
+	if len(r.Findings) < 60 {
+		r.best[key] = len(r.Findings)
 		r.Findings = append(r.Findings, f)
 	}
 }
